@@ -43,8 +43,10 @@ FindIdx(h, n) ==
     IN  IF occ = {} THEN NONE ELSE Some(<<MinOf(occ)>>)
 \* find(&UnixStr): first occurrence of the needle's content in the haystack's content
 Find(h, n) == {FindIdx(h, n)}
-\* find_buf(&[u8]): same, the needle being a plain byte slice
-FindBuf(h, n) == {FindIdx(h, n)}
+\* find_buf(&[u8]): same, the needle being a plain byte slice.  A slice may contain NUL bytes:
+\* the search then runs over the stored bytes of the haystack (content + terminator); for a
+\* NUL-free needle this is the same answer, because no occurrence can include the terminator.
+FindBuf(h, n) == {FindIdx(Raw(h), n)}
 
 CommonPrefix(a, b) ==
     LET ks == {k \in 0..Len(a) : k <= Len(b) /\ \A j \in 1..k : a[j] = b[j]}
